@@ -355,6 +355,19 @@ func (s Spec) Build() *decimal.Decimal {
 				pad = 12 * DW
 			}
 			d = rawFinite(s.Neg, want.Digits+strings.Repeat("0", pad), want.Exp, s.P, s.M)
+		case "gobpad":
+			// more words than the precision needs: only a gob payload with zero words appended (which GobDecode accepts,
+			// GobEncode never produces) gives this representation, e.g. 1.2345 at precision 5 held as [0, 0, T]
+			d = rawFinite(s.Neg, want.Digits, want.Exp, s.P, s.M)
+			b, err := d.GobEncode()
+			if err != nil {
+				panic(BuildError{"gobpad: " + err.Error()})
+			}
+			b = append(b, make([]byte, 8*(1+len(want.Digits)%3))...)
+			d = new(decimal.Decimal)
+			if err := d.GobDecode(b); err != nil {
+				panic(BuildError{"gobpad: " + err.Error()})
+			}
 		case "cap", "stale", "hugecap":
 			// a receiver that held a longer value before: large capacity, stale words
 			// (hugecap: at least seven times the words it needs, like the receiver of an earlier Karatsuba product)
@@ -428,3 +441,19 @@ func CeilLog10_2(p uint64) uint64 { return ceilMul(p, log10of2) }
 
 // CeilLog2_10 returns ceil(p*log2(10)) exactly.
 func CeilLog2_10(p uint64) uint64 { return ceilMul(p, log2of10) }
+
+// DisturbPool runs a few divisions, products and a square root on private variables so that every scratch
+// buffer the library keeps between calls (its sync.Pool of mantissa buffers, of any small size) is handed out
+// and overwritten. A value that was correct when its operation returned must still be correct afterwards:
+// nothing it owns may also sit in that pool.
+func DisturbPool() {
+	for _, k := range []int{2, 3, 5, 9, 40} {
+		x := rawFinite(false, strings.Repeat("7", (k+3)*DW), 5, uint((k+3)*DW), 0)
+		y := rawFinite(false, strings.Repeat("3", k*DW), 2, uint(k*DW), 0)
+		new(decimal.Decimal).SetPrec(uint(4 * DW)).Quo(x, y)
+		new(decimal.Decimal).SetPrec(uint(2 * k * DW)).Mul(x, y)
+	}
+	x := rawFinite(false, strings.Repeat("8", 45*DW), 5, uint(45*DW), 0)
+	new(decimal.Decimal).SetPrec(90 * DW).Mul(x, x)
+	new(decimal.Decimal).SetPrec(60).Sqrt(x)
+}
